@@ -909,7 +909,7 @@ class World:
                 if sorted(set(nonempty) - set(fout)) or sorted(set(fout) - set(keep)):
                     only_volume = set(nonempty) - set(fout) == {"volume"} and not set(fout) - set(keep)
                     viol("feature.set", f"dclab lists {sorted(fout)} for the output, {sorted(keep)} for the input",
-                         {"what": "issue141_log_stripped" if (strip_logs and only_volume and "dclab_issue_141" in dsi.logs) else "dclab_set"})
+                         {"what": "issue141_log_stripped" if (strip_logs and only_volume and self.has_marker_log(pin)) else "dclab_set"})
                 for f in nonempty:
                     if f not in fout:
                         continue
@@ -1041,6 +1041,12 @@ class World:
         extra = sorted(norm_name(o) for o in ologs if o not in accounted and ologs[o])
         if extra:
             viol("log.extra", f"logs {extra} appear only in the output ({route})", {"what": "log_extra"})
+
+    def has_marker_log(self, name):
+        """the 'dclab_issue_141' marker counts by its existence (also when it is an empty log, which ds.logs hides)"""
+        import h5py
+        with h5py.File(self.dir / name, "r") as h:
+            return "logs" in h and "dclab_issue_141" in h["logs"]
 
     # ---------------- oracle: condense ----------------
     def check_condense(self, pin, pout, opts, label):
